@@ -432,29 +432,29 @@ def gen_cases(rng, tier):
 
     def add(line, kind, nontrivial=True):
         cases.append((line, {'kind': kind, 'nontrivial': nontrivial}))
-    for _ in range(160 if q else 6000):
+    for _ in range(160 if q else 3200):
         k, b = gen_a85(rng); add(case('a85', XB(b)), 'a85-' + k, len(b) > 0)
-    for _ in range(140 if q else 5000):
+    for _ in range(140 if q else 2800):
         add(gen_pred(rng), 'pred')
-    for _ in range(80 if q else 3000):
+    for _ in range(80 if q else 1600):
         add(gen_frame(rng), 'frame')
-    for _ in range(260 if q else 9000):
+    for _ in range(260 if q else 5200):
         k, b = gen_content(rng); add(case('content', XB(b)), 'content-' + k, len(b) > 0)
-    for _ in range(140 if q else 5000):
+    for _ in range(140 if q else 2800):
         add(gen_objstm(rng), 'objstm')
-    for _ in range(200 if q else 7000):
+    for _ in range(200 if q else 4000):
         add(gen_xrefstm(rng), 'xrefstm')
-    for _ in range(120 if q else 4000):
+    for _ in range(120 if q else 2400):
         b = gen_textstr(rng); add(case('textstr', XB(b)), 'textstr', len(b) > 0)
-    for _ in range(140 if q else 5000):
+    for _ in range(140 if q else 2800):
         k, line = gen_cmap(rng); add(line, 'cmap-' + k)
-    for _ in range(80 if q else 3000):
+    for _ in range(80 if q else 1600):
         add(gen_stream(rng), 'stream')
     seeds = seed_files()
     for name, b in seeds:
         add(case('load', XB(b)), 'load-valid')
         add(case('incload', XB(b)), 'incload-valid')
-    for _ in range(420 if q else 15000):
+    for _ in range(420 if q else 8400):
         name, b = rng.choice(seeds)
         k, m = mutate(rng, b)
         if rng.random() < 0.25:
@@ -560,8 +560,8 @@ SPEC = {
     'partial_note': 'the proof covers lopdf\'s own arithmetic, indexing, loop bounds, recursion depth and allocation requests in the modelled '
                     'entry points; it cannot exhibit panics inside nom, flate2, weezl, encoding_rs, stringprep, rangemap (assumed total), '
                     'the real stack limit and allocator (approximated by depth/alloc annotations), wall-clock time.',
-    'impl_timeout': 900,
-    'model_timeout': 900,
+    'impl_timeout': 2400,
+    'model_timeout': 2400,
 }
 
 
